@@ -133,7 +133,8 @@ class FakePort(object):
         if k not in ("full", "part", "zero"):
             raise AssertionError("harness: unknown write answer %r" % (ans,))
         self.wire.extend(bytes(data[:c]))
-        self.calls.append(("write", "full" if c == n else "part" if c else "zero", c))
+        # (a zero length write: the answer planned is what is logged, its count is 0 whatever it was)
+        self.calls.append(("write", k if n == 0 else "full" if c == n else "part" if c else "zero", c))
         return c
 
 
